@@ -106,3 +106,65 @@ def all_bodies(crate):
 
 def is_test_fn(name):
     return "::tests::" in name or "::test::" in name or name.startswith("tests::") or "::test_" in name
+
+
+# ---------------------------------------------------------------------------
+# reduced MIR: dominators (analysis E)
+
+def mir_blocks(body):
+    return {b["id"]: b for b in body["mir"]["blocks"] if not b.get("cleanup")}
+
+
+def mir_dominators(body):
+    """dom[b] = set of blocks dominating b (entry = 0), unwind edges excluded."""
+    blocks = mir_blocks(body)
+    ids = sorted(blocks)
+    preds = {i: set() for i in ids}
+    for i in ids:
+        for s in blocks[i]["term"]["succ"]:
+            if s in preds:
+                preds[s].add(i)
+    dom = {i: set(ids) for i in ids}
+    dom[0] = {0}
+    changed = True
+    while changed:
+        changed = False
+        for i in ids:
+            if i == 0:
+                continue
+            ps = [dom[p] for p in preds[i]]
+            new = (set.intersection(*ps) if ps else set()) | {i}
+            if new != dom[i]:
+                dom[i] = new
+                changed = True
+    return dom
+
+
+def mir_calls(body, pred):
+    """(block id, terminator) of Call terminators whose callee/inst satisfies pred."""
+    out = []
+    for i, b in mir_blocks(body).items():
+        t = b["term"]
+        if t["k"] == "Call":
+            c = facts_norm(t.get("inst") or t.get("callee") or "")
+            if pred(c):
+                out.append((i, t))
+    return out
+
+
+def facts_norm(p):
+    import facts
+    return facts.norm_path(p)
+
+
+def mir_reachable(body, start):
+    blocks = mir_blocks(body)
+    seen = set()
+    st = [start]
+    while st:
+        x = st.pop()
+        if x in seen or x not in blocks:
+            continue
+        seen.add(x)
+        st.extend(blocks[x]["term"]["succ"])
+    return seen
